@@ -90,7 +90,13 @@ def run(tier, seed, threads, ev_path, scale, build, configs=None):
     died = []
     bins = {}
     for name, b, extra in CONFIGS:
-        bins[name] = (build(b), extra)
+        try:
+            bins[name] = (build(b), extra)
+        except Exception as e:
+            if b == 'native':
+                raise
+            say('WARNING: %s - configuration "%s" skipped (it does not build)' % (e, name))
+            continue
         part = '%s/parts/C17.%s.json' % (EVID, b + ('-scalar' if '--force-skip-fast' in extra else ''))
         args = [bins[name][0], 'run', 'C17', '--seed', str(seed), '--threads', str(threads), '--runs', str(n), '--replay-dir', FOUND,
                 '--known', VERIF + '/known_findings.json', '--substrate', name, '--tier', tier, '--stats-out', part] + extra
